@@ -165,6 +165,7 @@ type modTarget struct {
 	comp  string // component name or "" for wildcard
 	whole bool
 	addr  string // address term (evaluated at entry)
+	lo, hi string // for element arrays: permitted positions [lo, hi) ("" = any)
 }
 
 const (
